@@ -43,7 +43,8 @@ PubKeyW  == <<"kAll", "kAll", "kAll", "kAll">> \o SetToSeq(PubKeys)
 Lasts    == IF Small /\ Fam = "retain" THEN {-1, 0, 2} ELSE IF Fam \in {"retain", "all"} THEN {-1, 0, 1, 2, 1000} ELSE {0}
 Wins     == IF Small THEN {"none"} ELSE IF Fam \in {"retain", "all"} THEN {"none", "fromPast", "fromFuture", "untilPast", "untilFuture"} ELSE {"none"}
 Payloads == IF Small THEN {"m1"} ELSE {"m1", "m2"}
-TTLs     == IF Fam \in {"retain", "all"} THEN {0, 3600} ELSE {0}
+(* ttl: -1 = no ttl option, 0 = an explicit ?ttl=0, 3600 = a positive ttl *)
+TTLs     == IF Fam \in {"retain", "all"} THEN {-1, 0, 3600} ELSE {-1}
 Rts      == IF Fam \in {"retain", "all"} THEN BOOLEAN ELSE {FALSE}
 Users    == [c \in Clients |-> "u-" \o c]
 
@@ -85,21 +86,21 @@ MCUnsubscribe == \E c \in Pick(Open), k \in Pick({"kAll", "kBad"}), w \in Pick(F
 MCPublish == \E c \in Pick(Open), k \in PickW(PubKeyW), w \in Pick(Words \cup (IF Fam \in {"pubsub", "all"} THEN {<<"a", PLUS>>} ELSE {})),
                 syn \in PickW(SynW), me0 \in Pick(BOOLEAN), ttl \in Pick(TTLs), rt \in Pick(Rts), qos \in Pick({0, 1}), p \in Pick(Payloads) :
     /\ Fam = "retain" => (me0 = FALSE /\ qos = 1)
-    /\ (syn # "ok" \/ IsWild(w)) => (k = "kAll" /\ ~me0 /\ ttl = 0 /\ ~rt)
+    /\ (syn # "ok" \/ IsWild(w)) => (k = "kAll" /\ ~me0 /\ ttl = -1 /\ ~rt)
     /\ (ttl > 0 \/ rt) => Len(store) < MaxStore
     /\ Publish(c, Req(k, w, syn, me0, ttl), "", rt, qos, p)
     /\ Emit([n |-> "pub", c |-> c, k |-> k, w |-> w, syn |-> syn, me0 |-> me0, ttl |-> ttl, via |-> "", retain |-> rt, qos |-> qos, p |-> p])
 
 MCPublishVia == \E c \in Pick(Open), via \in Pick({"L1", "L2"}), qos \in Pick({0, 1}), p \in Pick(Payloads) :
     /\ In({"pubsub", "ending"})
-    /\ Publish(c, Req("", <<>>, "empty", FALSE, 0), via, FALSE, qos, p)
-    /\ Emit([n |-> "pub", c |-> c, k |-> "", w |-> <<>>, syn |-> "empty", me0 |-> FALSE, ttl |-> 0, via |-> via, retain |-> FALSE, qos |-> qos, p |-> p])
+    /\ Publish(c, Req("", <<>>, "empty", FALSE, -1), via, FALSE, qos, p)
+    /\ Emit([n |-> "pub", c |-> c, k |-> "", w |-> <<>>, syn |-> "empty", me0 |-> FALSE, ttl |-> -1, via |-> via, retain |-> FALSE, qos |-> qos, p |-> p])
 
 MCLink == \E c \in Pick(Open), nm \in Pick({"L1", "L2", "toolong"}), k \in Pick({"kAll", "kWO"}), w \in Pick(Words), me0 \in Pick(BOOLEAN), sub \in Pick(BOOLEAN), syn \in PickW(SynW) :
     /\ In({"pubsub", "ending"})
     /\ (syn # "ok" \/ nm = "toolong") => (k = "kAll" /\ ~me0 /\ ~sub)
-    /\ Link(c, nm, nm # "toolong", Req(k, w, syn, me0, 0), sub, 1)
-    /\ Emit([n |-> "link", c |-> c, name |-> nm, k |-> k, w |-> w, syn |-> syn, me0 |-> me0, ttl |-> 0, sub |-> sub])
+    /\ Link(c, nm, nm # "toolong", Req(k, w, syn, me0, -1), sub, 1)
+    /\ Emit([n |-> "link", c |-> c, name |-> nm, k |-> k, w |-> w, syn |-> syn, me0 |-> me0, ttl |-> -1, sub |-> sub])
 
 MCPresence == \E c \in Pick(Open), k \in Pick({"kAll", "kWO"}), w \in Pick(Words), status \in Pick(BOOLEAN), chg \in Pick({"none", "on", "off"}) :
     /\ In({"presence", "ending", "hostile"})
